@@ -266,7 +266,23 @@ pub enum Step {
     TryMap, Unresult,
     /// debug taps (identity)
     DebugInspect, DebugCount, DebugSample(usize),
+    /// `apply_transform` with a user-written `DynOp` that overrides no capability flag
+    CustomOp(i64),
+    /// `map_with_side_map` over the side map {0: 10, 1: 20}
+    MapSideMap,
     Join(JoinKind, Box<Prog>),
+}
+
+/// the user operator behind `Step::CustomOp`: adds `n`; trait-default flags and cost
+pub struct UserAddOp(pub i64);
+impl ironbeam::DynOp for UserAddOp {
+    fn apply(&self, input: ironbeam::Partition) -> ironbeam::Partition {
+        let v = *input.downcast::<Vec<V>>().expect("UserAddOp: Vec<V>");
+        Box::new(v.into_iter().map(|x| V::I(x.to_int().wrapping_add(self.0))).collect::<Vec<V>>())
+    }
+}
+pub fn side_map_f(x: &V, m: &std::collections::HashMap<i64, i64>) -> V {
+    V::I(x.to_int().wrapping_add(*m.get(&x.to_int().rem_euclid(3)).unwrap_or(&0)))
 }
 
 #[derive(Clone, Copy, Debug, PartialEq, Eq)]
@@ -309,6 +325,7 @@ impl Step {
             Step::TryMap => "try_map".into(), Step::Unresult => "unresult".into(),
             Step::DebugInspect => "debug_inspect".into(), Step::DebugCount => "debug_count".into(),
             Step::DebugSample(n) => format!("debug_sample {n}"),
+            Step::CustomOp(n) => format!("custom_op {n}"), Step::MapSideMap => "map_side_map".into(),
             Step::Join(k, right) => format!("join {} [ {}{} ]", k.enc(), V::L(right.src.clone()).enc(), steps_enc(&right.steps)),
         }
     }
@@ -328,6 +345,7 @@ impl Step {
             Step::DistinctPerKey => "distinct_per_key", Step::TopKPerKey(_) => "top_k_per_key", Step::Join(..) => "join",
             Step::MapSide(_) => "map_with_side", Step::FilterSide(_) => "filter_with_side", Step::TryMap => "try_map", Step::Unresult => "unresult",
             Step::DebugInspect => "debug_inspect", Step::DebugCount => "debug_count", Step::DebugSample(_) => "debug_sample",
+            Step::CustomOp(_) => "apply_transform(custom op)", Step::MapSideMap => "map_with_side_map",
         }
     }
 }
@@ -393,7 +411,7 @@ pub fn shape_after(sh: Shape, s: &Step) -> Option<Shape> {
         (Step::DistinctPerKey, KV) => KV,
         (Step::TopKPerKey(_), KV) => KG,
         (Step::Join(..), KV) => KV,
-        (Step::MapSide(_), T) | (Step::FilterSide(_), T) => T,
+        (Step::MapSide(_), T) | (Step::FilterSide(_), T) | (Step::CustomOp(_), T) | (Step::MapSideMap, T) => T,
         (Step::TryMap, T) => R,
         (Step::Unresult, R) => T,
         (Step::DebugInspect, sh) | (Step::DebugCount, sh) | (Step::DebugSample(_), sh) if sh != R => sh,
@@ -500,6 +518,11 @@ pub fn apply_step(c: Coll, s: &Step) -> Coll {
         Step::FilterSide(side) => {
             let sv = ironbeam::side_vec(side);
             Coll::T(as_t(c).filter_with_side(&sv, |x: &V, s: &[i64]| s.contains(&x.to_int().rem_euclid(5))))
+        }
+        Step::CustomOp(n) => Coll::T(as_t(c).apply_transform::<V>(std::sync::Arc::new(UserAddOp(n)))),
+        Step::MapSideMap => {
+            let sm = ironbeam::side_hashmap(vec![(0i64, 10i64), (1, 20)]);
+            Coll::T(as_t(c).map_with_side_map(&sm, |x: &V, m: &std::collections::HashMap<i64, i64>| side_map_f(x, m)))
         }
         Step::TryMap => Coll::R(as_t(c).try_map(|x: &V| try_f(x))),
         Step::Unresult => match c { Coll::R(x) => Coll::T(x.map(|r: &Result<V, String>| result_v(r))), _ => panic!("harness: unresult needs shape R") },
@@ -685,6 +708,8 @@ pub fn reference(prog: &Prog) -> RefOut {
             Step::DistinctPerKey => { rows.sort(); rows.dedup(); }
             Step::MapSide(side) => { let t = side.iter().fold(0i64, |a, b| a.wrapping_add(*b)); rows = rows.iter().map(|x| V::I(x.to_int().wrapping_add(t))).collect(); }
             Step::FilterSide(side) => rows.retain(|x| side.contains(&x.to_int().rem_euclid(5))),
+            Step::CustomOp(n) => rows = rows.iter().map(|x| V::I(x.to_int().wrapping_add(*n))).collect(),
+            Step::MapSideMap => { let m: std::collections::HashMap<i64, i64> = [(0, 10), (1, 20)].into_iter().collect(); rows = rows.iter().map(|x| side_map_f(x, &m)).collect(); }
             Step::TryMap => rows = rows.iter().map(|x| result_v(&try_f(x))).collect(),
             Step::Unresult | Step::DebugInspect | Step::DebugCount | Step::DebugSample(_) => {}
             Step::TopKPerKey(k) => rows = group(&rows).into_iter().map(|(key, vs)| V::pair(key, Comb::Topk(*k).reference(&vs).unwrap())).collect(),
@@ -820,7 +845,7 @@ pub fn gen_step(rng: &mut Rng, sh: Shape, o: &GenOpts, after_barrier: bool, dept
             16 => Step::Swapkv,
             17 => match rng.below(4) { 0 => Step::Values, 1 => Step::Keys,
                 2 => match rng.below(3) { 0 => Step::DebugInspect, 1 => Step::DebugCount, _ => Step::DebugSample(rng.below(4)) },
-                _ => match rng.below(4) { 0 => Step::MapSide((0..rng.below(4)).map(|_| rng.range(-2, 3)).collect()), 1 => Step::FilterSide((0..rng.below(4)).map(|_| rng.range(0, 4)).collect()), 2 => Step::TryMap, _ => Step::Unresult } },
+                _ => match rng.below(6) { 4 => Step::CustomOp(rng.range(-3, 3)), 5 => Step::MapSideMap, 0 => Step::MapSide((0..rng.below(4)).map(|_| rng.range(-2, 3)).collect()), 1 => Step::FilterSide((0..rng.below(4)).map(|_| rng.range(0, 4)).collect()), 2 => Step::TryMap, _ => Step::Unresult } },
             18 => Step::Topair,
             19 | 20 if o.barriers => Step::Gbk,
             21 if o.barriers => match rng.below(3) { 0 => Step::Ungroup, 1 => Step::Glen, _ => Step::Gsum },
@@ -942,6 +967,25 @@ pub fn check_prog(cx: &mut Ctx, prog: &Prog, modes: &[Mode], o: &CheckOpts) {
     let canon = prog.canon();
     let nontrivial = prog.src.len() >= 2 && !prog.steps.is_empty();
     let reference = if o.vs_reference { Some(reference(prog)) } else { None };
+    // the fail-fast terminal of a `Result` collection: Ok(all values) iff no element failed, else Err
+    if prog.steps.iter().fold(Some(prog.shape), |s, st| s.and_then(|s| shape_after(s, st))) == Some(Shape::R) {
+        if let Some(RefOut::Rows(rows)) = &reference {
+            let p2 = prog.clone();
+            let got = with_watchdog(10, move || {
+                let p = Pipeline::default();
+                match build(&p, &p2) { Coll::R(x) => x.collect_fail_fast().map_err(|e| format!("{e}")), _ => Err("not R".into()) }
+            });
+            let any_err = rows.iter().any(|r| matches!(r, V::P(t, _) if **t == V::S("err".into())));
+            let want_ok: Vec<V> = rows.iter().filter_map(|r| match r { V::P(_, v) => Some((**v).clone()), _ => None }).collect();
+            let idx = cx.case(format!("ORACLE-ONLY collect_fail_fast {}", prog.request("seq").replace(' ', "_")), "-".into(), nontrivial);
+            cx.count("terminal:collect_fail_fast");
+            match got {
+                Some(Ok(Ok(v))) if !any_err && v == want_ok => {}
+                Some(Ok(Err(_))) if any_err => {}
+                other => cx.oracle_fail(idx, "collect-fail-fast-wrong", format!("got {:?}, any element failed = {any_err}", other.map(|r| r.map(|x| x.map(|v| v.len()))))),
+            }
+        }
+    }
     let mut seq_answer: Option<String> = None;
     for m in modes {
         let out = run_real(prog, *m);
